@@ -1257,6 +1257,8 @@ def run_history(case):
                 spec = dict(spec, index=[i % ln for i in spec["index"]] if ln else [])
             if not excl and history_too_big(e.value[0], e.value[1], spec):
                 excl = "result too big for a history"
+            if not excl and spec["op"] == "reduce" and ("'string'" in repr(e.value[0]) or "'bytes'" in repr(e.value[0])):
+                excl = "reducers are defined on numeric leaves, not on strings"        # the same restriction as in run_corner
             if excl:
                 counts["step:derive_skipped"] += 1
                 pool.append(None)
